@@ -46,6 +46,8 @@ def sse_encode(msgs: List[Any], enc: Dict[str, Any]) -> bytes:
     out = []
     if enc.get("bom"):
         out.append("﻿")
+    if enc.get("prefix"):
+        out.append(enc["prefix"].replace("\n", eol))
     if enc.get("comments"):
         out.append(": keep-alive" + eol)
     for i, m in enumerate(msgs):
@@ -92,6 +94,15 @@ SSE_ENCODINGS = [
     {"name": "ascii", "ascii": True},
     {"name": "with_ping_event", "ping_event": True},
     {"name": "unterminated_last", "unterminated_last": True},
+    # a data-less named event (keep-alive) must not leak its type into the next event
+    {"name": "dataless_ping_then_untyped", "prefix": "event: ping\n\n", "event_field": None},
+    {"name": "dataless_ping_comment_then_untyped", "prefix": "event: ping\n: c\n\n", "event_field": None, "data_space": False},
+    {"name": "dataless_ping_crlf", "prefix": "event: ping\n\n", "event_field": None, "eol": "\r\n"},
+    {"name": "ping_with_data_then_untyped", "prefix": "event: ping\ndata: {}\n\n", "event_field": None},
+    {"name": "id_only_event_then_message", "prefix": "id: 7\n\n", "event_field": "message"},
+    {"name": "retry_only_then_untyped", "prefix": "retry: 3000\n\n", "event_field": None},
+    {"name": "data_only_empty_event", "prefix": "data\n\n", "event_field": None},
+    {"name": "field_without_colon", "prefix": "event\n\n", "event_field": None},
 ]
 
 
